@@ -213,3 +213,22 @@ Theorem C09_shipped_tables_are_source :
   /\ (exists l, ImpGen.imp_align_init_blosum80_0 = GoSem.Ret l /\ ImpProofsD.same_lookups l blosum80_tab).
 Proof. exact ImpProofsD.imp_init_matrices. Qed.
 Print Assumptions C09_shipped_tables_are_source.
+
+(* ---- the property itself, about the translated source -------------------------------------------------
+   With gap-open 0 the score that the translated Global / Local return is optimal: no alignment of
+   a and b (of any pair of suffixes' prefixes, for Local) scores above it. *)
+From Bio.Proofs Require ImpProofsV.
+
+Theorem C09_global_optimal0_is_source : forall fuel m a b, covers m a b -> gap_open m = Ok 0 ->
+  (S (length a) * S (length b) < fuel)%nat ->
+  exists al gs, ImpGen.imp_align_Global fuel a b m = GoSem.Ret (map ImpProofsD.step_n al, gs)
+    /\ forall al' s', consumes al' = (length a, length b) -> score m a b al' = Ok s' -> s' <= gs.
+Proof. exact ImpProofsV.global_optimal0_src. Qed.
+Print Assumptions C09_global_optimal0_is_source.
+
+Theorem C09_local_optimal0_is_source : forall fuel m a b, covers m a b -> gap_open m = Ok 0 ->
+  (S (length a) * S (length b) < fuel)%nat ->
+  exists al ai bi ls, ImpGen.imp_align_Local fuel a b m = GoSem.Ret (map ImpProofsD.step_n al, ai, bi, ls)
+    /\ forall i j al' s', score m (skipn i a) (skipn j b) al' = Ok s' -> s' <= ls.
+Proof. exact ImpProofsV.local_optimal0_src. Qed.
+Print Assumptions C09_local_optimal0_is_source.
